@@ -272,3 +272,51 @@ def loops_enclosing(it, *callee_suffixes):
         if not any((o is not l) and any(x is o["node"] for x in _ast.walk(l["node"])) for o in out):
             inner.append(l)
     return inner
+
+
+def row_mask_table(mask, arr="bases", lit="lit:'Z'", nsites=2):
+    """Truth table of a row mask over an array of letters: for every assignment 'site j holds the literal / does not' of a row
+    with `nsites` sites, whether the mask keeps the row.  Complete for masks built from ==, != against the literal, all / any
+    along the site axis, logical not, and / or of such masks; None if the term uses anything else."""
+    import itertools
+
+    A, L = T.sym(arr), T.sym(lit)
+
+    def ev(t, row):
+        """-> ('vec', [bool]*nsites) | ('row', bool) | None"""
+        at = t.single_atom() if hasattr(t, "single_atom") else None
+        if at is None or not isinstance(at, T.App):
+            return None
+        if at.op in ("cmp_Eq", "cmp_NotEq") and len(at.args) == 2:
+            a, b = at.args
+            if {repr(a), repr(b)} == {repr(A), repr(L)}:
+                v = list(row) if at.op == "cmp_Eq" else [not x for x in row]
+                return ("vec", v)
+            return None
+        if at.op in ("all", "any", "x:numpy.all", "x:numpy.any") and at.args:
+            r = ev(at.args[0], row)
+            if r is None or r[0] != "vec":
+                return None
+            return ("row", all(r[1]) if at.op.endswith("all") else any(r[1]))
+        if at.op in ("lnot", "logical_not"):
+            r = ev(at.args[0], row)
+            if r is None:
+                return None
+            return (r[0], [not x for x in r[1]]) if r[0] == "vec" else ("row", not r[1])
+        if at.op in ("land", "lor", "logical_and", "logical_or", "bitand", "bitor") and len(at.args) == 2:
+            r1, r2 = ev(at.args[0], row), ev(at.args[1], row)
+            if r1 is None or r2 is None or r1[0] != r2[0]:
+                return None
+            f = (lambda x, y: x and y) if "and" in at.op else (lambda x, y: x or y)
+            return (r1[0], [f(x, y) for x, y in zip(r1[1], r2[1])]) if r1[0] == "vec" else ("row", f(r1[1], r2[1]))
+        if at.op in ("eq0",):
+            return None
+        return None
+
+    table = {}
+    for row in itertools.product((True, False), repeat=nsites):
+        r = ev(mask, row)
+        if r is None or r[0] != "row":
+            return None
+        table[row] = r[1]
+    return table
